@@ -45,7 +45,11 @@ def classify(j, idx, name_ids):
     mm = j["mm"]
     byte_modrm = None
     toks0 = j["opcodeString"].split()
-    if kind == 0 and toks0 and toks0[0] == "9B":
+    if kind == 0 and toks0 == ["9B"]:
+        # fwait itself: db/x86.js reads the lone byte as a prefix
+        j = dict(j); j["pp"] = ""; j["byte"] = "9B"; j["mm"] = ""
+        mm = ""
+    elif kind == 0 and toks0 and toks0[0] == "9B":
         return bad("x87 (9B prefix)")
     if kind == 0 and toks0 and re.fullmatch(r"D[89A-F]", toks0[0]) and len(toks0) >= 2:
         # x87: escape opcode D8..DF followed by /digit (memory form) or by a fixed ModRM byte C0..FF (+i = st(i) in ModRM.rm).
@@ -97,18 +101,11 @@ def classify(j, idx, name_ids):
     moffs = bool(j["moff"] or any(o["memOff"] for o in j["ops"]))
     # far pointers in memory (m16:16 / m16:32 / m16:64) are ordinary memory operands of 4 / 6 / 10 bytes
     FIXBASE = {"zax": 0, "zcx": 1, "zdx": 2, "zbx": 3, "zsi": 6, "zdi": 7, "rax": 0, "rcx": 1, "rdx": 2, "rbx": 3, "rsi": 6, "rdi": 7}
-    if any(o["memSegment"] and o["memRegOnly"] not in FIXBASE for o in j["ops"]):
-        return bad("memory operand addressed by a ModRM register (enqcmd, movdir64b, umonitor)")
-    if j["name"] in ("lcall", "ljmp") and any(o["imm"] for o in j["ops"]):
-        return bad("far pointer immediate (selector:offset)")
-    if any(o["regIndexRel"] for o in j["ops"]):
-        return bad("consecutive register operand (k+1)")
+    far_imm = j["name"] in ("lcall", "ljmp") and len([o for o in j["ops"] if o["imm"]]) == 2
     if j["tsib"]:
         # AMX tile memory ("sibmem"): ModRM.rm is always 100 (a SIB byte is always present); translated as an ordinary memory
         # operand -- that a SIB byte is present is not modelled (llvm-mc rejects the SIB-less encodings)
         j = dict(j); j["modrm"] = ""; j["mod"] = "!(11)"
-    if any(o["mem"] in ("mib",) for o in j["ops"]):
-        return bad("mib memory operand")
     # prefixes / sizes
     if kind == 0:
         pp = {"": 0, "NP": 1, "66": 2, "F3": 3, "F2": 4, "66F2": 5}.get(j["pp"])
@@ -153,6 +150,7 @@ def classify(j, idx, name_ids):
     # operands
     ops = []
     free = []
+    rm_reg_form = False
     vsib = 0
     msz = 0
     bcst = 0
@@ -186,7 +184,20 @@ def classify(j, idx, name_ids):
                     free.append(k)
             if o["memOff"]:
                 d["slot"] = 8
-            if o["memSegment"]:
+            if o["regIndexRel"]:
+                d["slot"] = 12                      # k+1: the register after the one in ModRM.reg
+                if free and free[-1] == k:
+                    free.pop()
+            if o["memSegment"] and o["memRegOnly"] not in FIXBASE and j["name"] == "umonitor":
+                d["slot"] = 13                      # addressed by the register in ModRM.rm of the register form
+                rm_reg_form = True
+                if free and free[-1] == k:
+                    free.pop()
+            elif o["memSegment"] and o["memRegOnly"] not in FIXBASE:
+                d["slot"] = 11                      # addressed by the register in ModRM.reg
+                if free and free[-1] == k:
+                    free.pop()
+            elif o["memSegment"]:
                 d["slot"] = 9
                 d["fixed"] = FIXBASE[o["memRegOnly"]]
                 d["immval"] = 1 if o["memSegment"] == "ds" else 0
@@ -218,6 +229,11 @@ def classify(j, idx, name_ids):
         letters = enc
         if letters == "R" and digit >= 0:
             letters = "M"
+    if rm_reg_form:
+        mod = 1
+        letters = letters.replace("M", "", 1)
+    if any(d["slot"] == 11 for d in ops):
+        letters = letters.replace("R", "", 1)      # the register-addressed memory operand occupies ModRM.reg
     if j["ri"] and "O" not in letters:
         return bad("opcode+r without a register operand")
     # rows whose `encoding` field contradicts their own operand list (database defects, named in the evidence): the slots are
@@ -249,6 +265,8 @@ def classify(j, idx, name_ids):
         return bad("is4 slot without /is4")
     # immediate operands <-> immediate bytes
     immops = [d for d in ops if d["slot"] in (6, 10)]
+    if far_imm:
+        immops = immops[::-1]          # ptr16:16/32 -- the offset bytes come first, the selector last
     fields = list(imm_fields)
     off = 0
     if is4:
@@ -344,7 +362,7 @@ def coq_text(rows, names=None):
     out = []
     out.append("(* GENERATED by tools/c01_db.py from db/isa_x86.json (expanded by the repository's db/index.js). Do not edit.\n"
                "   %d expanded forms, %d supported by the structural decoder (the others are counted in the evidence). *)" % (len(rows), len(sup)))
-    out.append("From Coq Require Import ZArith List Bool.\nFrom Verif Require Import X86.X86Model X86.X86Denote X86.X86DbCheck X86.X86Unique X86.X86UniqueProofs.\nImport ListNotations.\nLocal Open Scope Z_scope.\n")
+    out.append("From Coq Require Import ZArith List Bool.\nFrom Verif Require Import X86.X86Model X86.X86Denote X86.X86DbCheck X86.X86Unique X86.X86UniqueProofs X86.X86JudgeProofs.\nImport ListNotations.\nLocal Open Scope Z_scope.\n")
     for r in sup:
         ops = "; ".join("mkO %d %d %s %d %d %d %d %s %s %s" % (d["kind"], d["cls"], zz(d["fixed"]), d["slot"], d["msz"], d["immoff"],
                                                              d["immsz"], zz(d["immval"]), zb(d["immsign"] == "signed"), zb(d["implicit"])) for d in r["ops"])
@@ -394,9 +412,12 @@ def coq_text(rows, names=None):
                         pairs.append((nid[l[0]], nid[l[1]]))
         out.append("(* reviewed mnemonic aliases (corpus/C01_db_alias.txt) and known ambiguities of the database (corpus/C01_db_ambiguous.txt, findings) *)")
         out.append("Definition db_aliases : list (Z * Z) := [%s].\n" % "; ".join("(%d, %d)" % p for p in pairs))
-        out.append("(* uniqueness: rows of one opcode bucket that can admit the same bytes (X86Unique.may_overlap) name the same mnemonic or a listed pair *)")
+        out.append("(* uniqueness: rows of one opcode bucket that can accept the same bytes (X86Unique.may_overlap) name the same mnemonic or a listed pair *)")
         out.append("Lemma db_unique_raw : forallb (fun o => bucket_unique db_aliases (bucket_raw o)) (zrange 256) = true.\nProof. vm_compute. reflexivity. Qed.\n")
         out.append("Lemma db_unique : forall o, bucket_unique db_aliases (bucket o) = true.\nProof. exact (guarded_all bucket_raw db_aliases db_unique_raw). Qed.\n")
+        out.append("(* the row the judge looks up by id reads names and decorations like the bucket's row of that id *)")
+        out.append("Lemma db_bucket_row_of_raw : forallb (fun o => bucket_row_of_ok row_of (bucket_raw o)) (zrange 256) = true.\nProof. vm_compute. reflexivity. Qed.\n")
+        out.append("Lemma db_bucket_row_of : forall o, bucket_row_of_ok row_of (bucket o) = true.\nProof. exact (guarded_row_of bucket_raw row_of db_bucket_row_of_raw). Qed.\n")
         out.append(coq_examples(names))
     return "\n".join(out) + "\n"
 
